@@ -49,8 +49,10 @@ claim('C01',
       'to_* functional applied to self.theta with every hyper-parameter bound, by resolved parameter name, to the attribute that '
       '__init__ built from the constructor argument of the same role (W1); every option the constructor accepts is dispatched to '
       'the map of that name (W2); the theta length allocated for each (option, real/complex, flag) is the same exact polynomial in '
-      'dim, rank as the length the functional accepts for that field (W3); no dtype test is constantly false (K3). Membership of '
-      'the returned point in the manifold for all theta is value-level and NOT decided.',
+      'dim, rank as the length the functional accepts for that field (W3); no dtype test is constantly false (K3); the ball map '
+      'theta*h(r) has norm r*h(r) < 1 for EVERY theta, decided exactly on the polynomial den - r*num (RB1); NumPy and PyTorch arms '
+      'of 18 functional maps are the same computation (B1). Membership for the other manifolds (unit norm, PSD, X^dagger X = I, '
+      'simplex, interval) for all theta is value-level and NOT decided.',
       'Trusted: role table {cayley_order->order, euler_with_phase->with_phase}; exact polynomial arithmetic over Q with //2 rewritten '
       'only for always-even numerators.',
       'ast call binding by parameter name + symbolic evaluation of constructor/functional length formulas to exact polynomials',
